@@ -14,7 +14,8 @@ EXPLANATION = (
     "R3 the L1800 lint is pushed only from the Loop arm, only when is_first_statement_of_branch was Some, which is "
     "set only in Block::lint from is_naked_branch, which is set only in the If arm and cleared after the first "
     "statement; R4 the generator peels a final `loop` off a block before generating the other statements, which is "
-    "what makes its `Statement::Loop => unreachable!()` arm dead. Agreement over all statement trees is not decided.")
+    "what makes its `Statement::Loop => unreachable!()` arm dead. Agreement over all statement trees is not decided."
+    " ADDED LATER: R3-LINT-TYPESTATE: may-typestate of the linter's two Option flags (None/Some, Option::take): a statement is linted as a naked branch only as the branch of an if, and the flags never survive into the next statement, function or declaration; R5 the syntax analyzer visits every statement (T2).")
 
 AN = "alpha::analyzer::syntax::"
 ST = "<alpha::common::Statement as alpha::analyzer::syntax::Analyzable>::analyze"
